@@ -1,17 +1,18 @@
 #!/usr/bin/env python3
-"""confirm_seed.py Cxx N : confirm a seeded change produced by a sub-agent in /tmp/wt/Cxx/seed/mutN:
+"""confirm_seed.py Cxx N : confirm a seeded change produced by a sub-agent in $SEED_ROOT/Cxx/seed/mutN (default /tmp/wt; stored as m(N+$SEED_OFFSET)):
 fresh scratch worktree of /repo HEAD; demo passes unchanged; patch applies; test suite passes with it; demo fails with it.
 On success copies it to /verif/seeded/Cxx-mN/ with meta.json. The scratch worktree is removed."""
 import json, os, re, shutil, subprocess, sys
 pid, n = sys.argv[1], sys.argv[2]
-src = '/tmp/wt/%s/seed/mut%s' % (pid, n)
+root = os.environ.get('SEED_ROOT', '/tmp/wt'); off = int(os.environ.get('SEED_OFFSET', '0'))
+src = '%s/%s/seed/mut%s' % (root, pid, n)
 wt = '/tmp/confirm_%s_%s' % (pid, n)
 def sh(cmd, **k): return subprocess.run(cmd, shell=True, capture_output=True, text=True, **k)
 sh('git -C /repo worktree remove --force %s' % wt); shutil.rmtree(wt, ignore_errors=True)
 r = sh('git -C /repo worktree add --detach %s HEAD' % wt); assert r.returncode == 0, r.stderr
 env = dict(os.environ, PYTHONPATH=wt + '/src', PYTHONHASHSEED='0')
 try:
-    demo = open(src + '/demo.py').read().replace('/tmp/wt/%s' % pid, wt)
+    demo = open(src + '/demo.py').read().replace('%s/%s' % (root, pid), wt)
     os.makedirs(wt + '/seed/mut%s' % n, exist_ok=True)
     dpath = wt + '/seed/mut%s/demo.py' % n; open(dpath, 'w').write(demo)
     d0 = sh('/venv/bin/python %s' % dpath, env=env, cwd=wt)
@@ -24,7 +25,7 @@ try:
     ok = d0.returncode == 0 and ap.returncode == 0 and tests_ok and d1.returncode == 1
     print(pid, n, 'demo_unchanged=%d apply=%d tests=%s demo_changed=%d => %s' % (d0.returncode, ap.returncode, summary[-1:] , d1.returncode, 'CONFIRMED' if ok else 'REJECTED'))
     if ok:
-        dst = '/verif/seeded/%s-m%s' % (pid, n); os.makedirs(dst, exist_ok=True)
+        dst = '/verif/seeded/%s-m%d' % (pid, int(n) + off); os.makedirs(dst, exist_ok=True)
         shutil.copy(src + '/patch.diff', dst + '/patch.diff'); shutil.copy(src + '/demo.py', dst + '/demo.py')
         if os.path.exists(src + '/notes.md'): shutil.copy(src + '/notes.md', dst + '/notes.md')
         notes = open(src + '/notes.md').read() if os.path.exists(src + '/notes.md') else ''
